@@ -67,8 +67,9 @@ def verify_contract(repo: str, con: Any, contracts_by_target: dict[str, Any], mo
         result["digest"] = function_digest(node)
         loop_nodes = loops_of(node)
         result["loops"] = len(loop_nodes)
+        small = mode == "small"
         interp = Interp(world, ctx, contracts_by_target, stubs=con.__dict__.get("stubs"),
-                        unroll=con.__dict__.get("unroll", 6))
+                        unroll=3 if small else con.__dict__.get("unroll", 6))
         interp.open_findings = open_findings
         interp.abstract_sort = bool(con.__dict__.get("abstract_sort", False))
         interp.concrete_model = concrete_model
@@ -76,7 +77,9 @@ def verify_contract(repo: str, con: Any, contracts_by_target: dict[str, Any], mo
             world.load(relname)
         for cls_name, relname in (con.__dict__.get("class_pref") or {}).items():
             interp.class_pref[cls_name] = relname
-        for ordinal, loop in (con.__dict__.get("loops") or {}).items():
+        # mode 'small' (counterexample search): no invariants, loops run as they are on inputs whose
+        # sequences hold at most two elements - every refutation there has a concrete input
+        for ordinal, loop in ({} if small else (con.__dict__.get("loops") or {})).items():
             if ordinal >= len(loop_nodes):
                 # the loop the contract speaks about is gone: verify the function as it is now
                 result.setdefault("notes", []).append(f"contract names loop #{ordinal}; the function has {len(loop_nodes)} loops")
@@ -125,17 +128,21 @@ def verify_contract(repo: str, con: Any, contracts_by_target: dict[str, Any], mo
                 klass = interp.truth(interp.eval_named(klass_fn, args))
                 klass = klass if not isinstance(klass, bool) else z3.BoolVal(klass)
                 if labels is None:
-                    if mode == "main":
+                    if mode in ("main", "small"):
                         ctx.assume(z3.Not(klass))
                     elif mode == f"known:{fid}":
                         ctx.assume(klass)
                 else:
-                    if mode == "main":
+                    if mode in ("main", "small"):
                         for label in labels:
                             clause_guard.setdefault(label, []).append(z3.Not(klass))
                     elif mode == f"known:{fid}":
                         ctx.assume(klass)
                         only_clauses = labels
+            if small:
+                for sym_name, term in list(ctx.input_symbols.items()):
+                    if sym_name.startswith("len("):
+                        ctx.assume(term <= 2)
             if not ctx.feasible(z3.BoolVal(True)):
                 raise PathPruned()
             old = ObjV("_Old", {name: snapshot(value) for name, value in args.items()})
